@@ -455,7 +455,8 @@ def evaluate(case, native):
         sol = native['solution']
         tour = sol['tours'][0]
         ref, dur, dist, rates, dims = case['jobs_ref'], case['dur'], case['dist'], case['rates'], case['dims']
-        n = len(ref) + 2
+        closed_ = case.get('closed', True)
+        n = len(ref) + (2 if closed_ else 1)
         t = case['dep0']
         arr, dep, waits = [t], [t], [0]
         for i in range(1, n):
@@ -503,7 +504,7 @@ def evaluate(case, native):
                                        - sum(x['amounts'][d] for x in ref[prev_seg[0]:prev_seg[1]] if x['kind'] == 'pickup'))
                     for d in range(dims):
                         cur[d] += (r['amounts'][d] if r['kind'] in ('pickup', 'dyn+') else 0) - (r['amounts'][d] if r['kind'] in ('delivery', 'dyn-') else 0)
-            want_load = [0] * dims if i == n - 1 else cur
+            want_load = [0] * dims if (closed_ and i == n - 1) else cur
             got_load = (list(stop['load']) + [0] * dims)[:dims]      # a load without dimensions is written as [0]
             if got_load != want_load:
                 return True, f'stop {i}: written load {stop["load"]}, recomputed {want_load}'
